@@ -153,12 +153,15 @@ func validOptionalPort(port string) bool {
 	return true
 }
 
+// IsUnsafeMethod reports whether the method is not registered as safe (RFC 9110 §9.2.1,
+// IANA HTTP Method Registry). Unknown methods are treated as unsafe.
 func IsUnsafeMethod(method string) bool {
 	switch method {
-	case http.MethodPost, http.MethodPut, http.MethodDelete, http.MethodPatch:
-		return true
-	default:
+	case http.MethodGet, http.MethodHead, http.MethodOptions, http.MethodTrace,
+		"PROPFIND", "REPORT", "SEARCH", "QUERY", "PRI":
 		return false
+	default:
+		return true
 	}
 }
 
